@@ -85,6 +85,7 @@ func genConfigType(r *vlib.R, withChild bool, depth int) *genType {
 		addNodeFields()
 	}
 	n := 1 + r.Intn(7)
+	namesOf := map[string][]string{}
 	var lastPtrStruct reflect.Type
 	for i := 0; i < n; i++ {
 		if i == 1 && idAt == 1 {
@@ -97,6 +98,21 @@ func genConfigType(r *vlib.R, withChild bool, depth int) *genType {
 			tagKind = "edgepoint"
 		}
 		ptype := fmt.Sprintf("%s%d", map[string]string{"point": "pt", "edgepoint": "ep"}[tagKind], i)
+		// a node point field and an edge point field may carry the same type name (two name spaces): every
+		// fourth field of the other kind reuses a name already taken on the other side
+		if other := namesOf[map[string]string{"point": "edgepoint", "edgepoint": "point"}[tagKind]]; len(other) > 0 && r.Chance(0.25) {
+			cand := other[r.Intn(len(other))]
+			taken := false
+			for _, x := range namesOf[tagKind] {
+				if x == cand {
+					taken = true
+				}
+			}
+			if !taken {
+				ptype = cand
+			}
+		}
+		namesOf[tagKind] = append(namesOf[tagKind], ptype)
 		var t reflect.Type
 		shape := ""
 		el := scalarTypes[r.Intn(len(scalarTypes))]
